@@ -6,6 +6,7 @@ from checks.c05 import GUEST_BYTES_A
 TY = ["bool", "schar", "uchar", "short", "ushort", "int", "uint", "long", "ulong", "llong", "ullong"]
 BIN = ["+", "-", "*", "/", "%", "^", "&", "|", "<<", ">>"]
 CMP = ["==", "!=", "<", "<=", ">", ">="]
+LOG = ["&&", "||"]     # BooleanBinaryOp: value of the plain expression, always tainted<bool> (never a hint)
 WRAPS = [("tainted", "plain"), ("tainted", "tainted"), ("tainted", "tvol"), ("tvol", "plain"), ("tvol", "tainted"), ("tvol", "tvol"),
          ("plain", "tainted"), ("plain", "tvol")]
 PARTS = [("h_ops.cpp", [f"-DOPS_PART={i}"]) for i in range(11)] + [("h_ops.cpp", [])]
@@ -105,6 +106,10 @@ def oracle(toks, line):
             lw, rw = toks[2].split(":")[0], toks[3].split(":")[0]
             want_hint = "tvol" in (lw, rw)
             return line.startswith("ok hint ") == want_hint
+        if c == "bin" and toks[1] in LOG and line.startswith("ok"):
+            a, b = int(toks[4]), int(toks[5])
+            want = (a != 0 and b != 0) if toks[1] == "&&" else (a != 0 or b != 0)
+            return line == f"ok b1 {1 if want else 0}"
         return True
     if c == "cmpd":
         op = toks[1]
@@ -176,7 +181,7 @@ def run(chk):
     ops = []
     # (1) exhaustive 8-bit x 8-bit operand pairs (block hash): every operator; wrapper combinations rotate with the seed in quick
     small = ["bool", "schar", "uchar"]
-    for op in BIN + CMP:
+    for op in BIN + CMP + LOG:
         combos = WRAPS if thorough else rng.sample(WRAPS, 2)
         for lw, rw in combos:
             for lt in small[1:]:
@@ -184,7 +189,7 @@ def run(chk):
                     ops.append(f"binblk {op} {lw}:{lt} {rw}:{rt}")
     # (2) all operators x all wrapper combinations x all type pairs at boundary/random values
     per = 6 if thorough else 2
-    for op in BIN + CMP:
+    for op in BIN + CMP + LOG:
         for lw, rw in WRAPS:
             for lt in TY:
                 for rt in TY:
